@@ -403,6 +403,19 @@ type errMissingTypes []missingType // inv: len > 0
 
 var _ digError = errMissingTypes(nil)
 
+// arrayOf is reflect.ArrayOf for a type we might suggest. reflect.ArrayOf
+// panics when the array would not fit into the address space (for example
+// an array of pointers as long as a [1 << 61]struct{}); such a type cannot
+// be in the container, so there is nothing to suggest and ok is false.
+func arrayOf(length int, elem reflect.Type) (t reflect.Type, ok bool) {
+	defer func() {
+		if recover() != nil {
+			t, ok = nil, false
+		}
+	}()
+	return reflect.ArrayOf(length, elem), true
+}
+
 func newErrMissingTypes(c containerStore, k key) errMissingTypes {
 	// Possible types we will look for in the container. We will always look
 	// for pointers to the requested type and some extras on a per-Kind basis.
@@ -426,12 +439,16 @@ func newErrMissingTypes(c containerStore, k key) errMissingTypes {
 
 	if k.t.Kind() == reflect.Array {
 		// Maybe the user meant an array of pointers while we have the array of elements
-		suggestions = append(suggestions, reflect.ArrayOf(k.t.Len(), reflect.PointerTo(k.t.Elem())))
+		if t, ok := arrayOf(k.t.Len(), reflect.PointerTo(k.t.Elem())); ok {
+			suggestions = append(suggestions, t)
+		}
 
 		// Maybe the user meant an array of elements while we have the array of pointers
 		arrayElement := k.t.Elem()
 		if arrayElement.Kind() == reflect.Ptr {
-			suggestions = append(suggestions, reflect.ArrayOf(k.t.Len(), arrayElement.Elem()))
+			if t, ok := arrayOf(k.t.Len(), arrayElement.Elem()); ok {
+				suggestions = append(suggestions, t)
+			}
 		}
 	}
 
